@@ -11,6 +11,7 @@
 #include <nix/util/dataAccess.hpp>
 #include <cmath>
 #include <cfloat>
+#include <functional>
 #include "vf.hpp"
 
 using namespace nix;
@@ -99,10 +100,120 @@ struct Axis {
     bool bounded;             // false: the axis continues beyond x.back()
 };
 
+static std::string rdev(const OptRange &got, const OptRange &want);
+// ---- deprecated entry points ---------------------------------------------------------------
+// They are forwarding wrappers with one fixed rule each: the deprecated scalar forms answer GreaterOrEqual (RangeDimension's
+// flag form LessOrEqual / GreaterOrEqual), the deprecated pair and list forms answer in inclusive mode; where the statement
+// says "no index" / "not valid" they have no empty value to return and raise an error instead.
+#pragma GCC diagnostic push
+#pragma GCC diagnostic ignored "-Wdeprecated-declarations"
+struct LegacyScalar { std::string name; PositionMatch rule; std::function<ndsize_t()> call; };
+static std::vector<LegacyScalar> legacy_scalars(const SampledDimension &d, double p) {
+    return {{"SampledDimension::indexOf(position) [deprecated]", PositionMatch::GreaterOrEqual, [&d, p] { return d.indexOf(p); }},
+            {"util::positionToIndex(position,unit,SampledDimension) [deprecated]", PositionMatch::GreaterOrEqual, [&d, p] { return util::positionToIndex(p, "none", d); }},
+            {"util::positionToIndex(position,unit,SampledDimension) [deprecated]", PositionMatch::GreaterOrEqual, [&d, p] { return util::positionToIndex(p, "ms", d); }}};
+}
+static std::vector<LegacyScalar> legacy_scalars(const RangeDimension &d, double p) {
+    return {{"RangeDimension::indexOf(position,less_or_equal=true) [deprecated]", PositionMatch::LessOrEqual, [&d, p] { return d.indexOf(p, true); }},
+            {"RangeDimension::indexOf(position,less_or_equal=false) [deprecated]", PositionMatch::GreaterOrEqual, [&d, p] { return d.indexOf(p, false); }},
+            {"util::positionToIndex(position,unit,RangeDimension) [deprecated]", PositionMatch::GreaterOrEqual, [&d, p] { return util::positionToIndex(p, "none", d); }},
+            {"util::positionToIndex(position,unit,RangeDimension) [deprecated]", PositionMatch::GreaterOrEqual, [&d, p] { return util::positionToIndex(p, "ms", d); }}};
+}
+static std::vector<LegacyScalar> legacy_scalars(const SetDimension &d, double p) {
+    return {{"util::positionToIndex(position,unit,SetDimension) [deprecated]", PositionMatch::GreaterOrEqual, [&d, p] { return util::positionToIndex(p, "none", d); }}};
+}
+static std::vector<LegacyScalar> legacy_scalars(const DataFrameDimension &, double) { return {}; }
+
+template <typename Dim>
+static void check_legacy_scalar(const Axis &ax, const Dim &dim, const Dimension &gdim, double p, const std::string &pc) {
+    for (const LegacyScalar &l : legacy_scalars(dim, p)) {
+        OptIdx want = ref_index(ax.x, p, l.rule), got; std::string what;
+        std::string exc = vf::guarded([&] { got = l.call(); }, &what);
+        vf::count("legacy_calls");
+        vf::distinct("outcomes", ax.kind + "|legacy|" + pc + "|" + (exc.empty() ? "idx" : exc));
+        if (!exc.empty() && !want) continue;                       // no such index: an error is the only way to say so
+        if (!exc.empty() || got != want)
+            vf::violation("C07|" + l.name + "|" + pc + "|answers like " + mname(l.rule) + ", error when there is no such index|" + (exc.empty() ? devclass(got, want) : "raised although an index exists"),
+                          ax.name + " p=" + vf::hexd(p) + ": got " + (exc.empty() ? os(got) : exc + " " + what) + " expected " + os(want));
+    }
+    (void)gdim;   // the dispatchers on a generic Dimension are not declared in the public headers; Tag retrieval drives them (C05)
+}
+
+typedef std::vector<std::pair<ndsize_t, ndsize_t>> Ranges;
+struct LegacyList { std::string name; bool filter; std::function<Ranges(const std::vector<double> &, const std::vector<double> &)> call; };
+static std::vector<LegacyList> legacy_lists(const SampledDimension &d) {
+    return {{"SampledDimension::indexOf(starts,ends) [deprecated]", false, [&d](const std::vector<double> &s, const std::vector<double> &e) { return d.indexOf(s, e); }},
+            {"util::positionToIndex(starts,ends,units,SampledDimension) [deprecated]", false, [&d](const std::vector<double> &s, const std::vector<double> &e) { return util::positionToIndex(s, e, std::vector<std::string>(s.size(), "none"), d); }}};
+}
+static std::vector<LegacyList> legacy_lists(const RangeDimension &d) {
+    return {{"RangeDimension::indexOf(starts,ends,strict=true,Inclusive) [deprecated]", false, [&d](const std::vector<double> &s, const std::vector<double> &e) { return d.indexOf(s, e, true, RangeMatch::Inclusive); }},
+            {"RangeDimension::indexOf(starts,ends,strict=false,Inclusive) [deprecated]", true, [&d](const std::vector<double> &s, const std::vector<double> &e) { return d.indexOf(s, e, false, RangeMatch::Inclusive); }},
+            {"util::positionToIndex(starts,ends,units,RangeDimension) [deprecated]", false, [&d](const std::vector<double> &s, const std::vector<double> &e) { return util::positionToIndex(s, e, std::vector<std::string>(s.size(), "ms"), d); }}};
+}
+static std::vector<LegacyList> legacy_lists(const SetDimension &d) {
+    return {{"util::positionToIndex(starts,ends,units,SetDimension) [deprecated]", false, [&d](const std::vector<double> &s, const std::vector<double> &e) { return util::positionToIndex(s, e, std::vector<std::string>(s.size(), "none"), d); }}};
+}
+static std::vector<LegacyList> legacy_lists(const DataFrameDimension &) { return {}; }
+static bool legacy_pair(const SampledDimension &d, double s, double e, std::pair<ndsize_t, ndsize_t> &out) { out = d.indexOf(s, e); return true; }
+static bool legacy_pair(const RangeDimension &d, double s, double e, std::pair<ndsize_t, ndsize_t> &out) { out = d.indexOf(s, e); return true; }
+static bool legacy_pair(const SetDimension &, double, double, std::pair<ndsize_t, ndsize_t> &) { return false; }
+static bool legacy_pair(const DataFrameDimension &, double, double, std::pair<ndsize_t, ndsize_t> &) { return false; }
+
+static std::string lclass(const Ranges &got, const Ranges &want) {
+    if (got.size() != want.size()) return got.size() < want.size() ? "fewer ranges" : "more ranges";
+    return "other ranges";
+}
+
+// ss/ee: the request list of check_pairs.  The list forms are called with the whole list, with the valid pairs only, and
+// with the list cut after the first invalid pair; the deprecated pair form with every pair.
+template <typename Dim>
+static void check_legacy_pairs(const Axis &ax, const Dim &dim, const Dimension &gdim, const std::vector<double> &ss, const std::vector<double> &ee) {
+    std::vector<OptRange> want;
+    for (size_t k = 0; k < ss.size(); k++) want.push_back(ref_range(ax.x, ss[k], ee[k], RangeMatch::Inclusive));
+    // request lists: all / valid only / up to and including the first invalid pair
+    std::vector<std::vector<size_t>> lists(3);
+    bool cut = false;
+    for (size_t k = 0; k < ss.size(); k++) {
+        lists[0].push_back(k);
+        if (want[k]) lists[1].push_back(k);
+        if (!cut) { lists[2].push_back(k); if (!want[k]) cut = true; }
+    }
+    const char *lname[] = {"all pairs", "valid pairs only", "up to the first invalid pair"};
+    for (const LegacyList &l : legacy_lists(dim)) for (int li = 0; li < 3; li++) {
+        std::vector<double> s, e; Ranges exp; bool any_invalid = false;
+        for (size_t k : lists[li]) { s.push_back(ss[k]); e.push_back(ee[k]); if (want[k]) exp.push_back(*want[k]); else any_invalid = true; }
+        Ranges got; std::string what;
+        std::string exc = vf::guarded([&] { got = l.call(s, e); }, &what);
+        vf::count("legacy_calls");
+        vf::distinct("outcomes", ax.kind + "|legacy list|" + lname[li] + "|" + (exc.empty() ? "ranges" : exc));
+        bool must_throw = any_invalid && !l.filter;
+        if (must_throw && !exc.empty()) continue;
+        if (must_throw || !exc.empty() || got != exp)
+            vf::violation("C07|" + l.name + "|" + lname[li] + "|inclusive ranges of the " + (l.filter ? "valid pairs in request order" : "pairs, error if a pair is invalid") + "|" +
+                          (must_throw ? "returned although a pair is invalid" : !exc.empty() ? "raised" : lclass(got, exp)),
+                          ax.name + " " + std::to_string(s.size()) + " pairs: got " + (exc.empty() ? std::to_string(got.size()) + " ranges" : exc + " " + what) + " expected " + (must_throw ? "an error" : std::to_string(exp.size()) + " ranges"));
+    }
+    for (size_t k = 0; k < ss.size(); k++) {
+        std::pair<ndsize_t, ndsize_t> got; bool have = false; std::string what;
+        std::string exc = vf::guarded([&] { have = legacy_pair(dim, ss[k], ee[k], got); }, &what);
+        if (exc.empty() && !have) break;
+        vf::count("legacy_calls");
+        if (!exc.empty() && !want[k]) continue;
+        if (!exc.empty() || OptRange(got) != want[k]) {
+            std::string pc = pclass(ax.x, ss[k]) + "/" + pclass(ax.x, ee[k]) + (ss[k] > ee[k] ? "/reversed" : "");
+            vf::violation("C07|" + ax.kind + "::indexOf(start,end) [deprecated]|" + pc + "|inclusive range, error when the pair is not valid|" + (exc.empty() ? rdev(OptRange(got), want[k]) : "raised although the pair is valid"),
+                          ax.name + " start=" + vf::hexd(ss[k]) + " end=" + vf::hexd(ee[k]) + ": got " + (exc.empty() ? ors(OptRange(got)) : exc + " " + what) + " expected " + ors(want[k]));
+        }
+    }
+    (void)gdim;
+}
+#pragma GCC diagnostic pop
+
 template <typename Dim>
 static void check_scalar(const Axis &ax, const Dim &dim, const Dimension &gdim, double p, bool with_unit_api) {
     if (!ax.bounded && !(p <= ax.x[ax.x.size() - 2])) return; // keep the answer inside the computed prefix
     std::string pc = pclass(ax.x, p);
+    check_legacy_scalar(ax, dim, gdim, p, pc);
     for (PositionMatch m : MATCHES) {
         OptIdx want = ref_index(ax.x, p, m);
         OptIdx got = dim.indexOf(p, m);
@@ -140,6 +251,7 @@ static void check_pairs(const Axis &ax, const Dim &dim, const Dimension &gdim, c
         if (!ax.bounded && (!(s <= ax.x[ax.x.size() - 2]) || !(e <= ax.x[ax.x.size() - 2]))) continue;
         ss.push_back(s); ee.push_back(e);
     }
+    check_legacy_pairs(ax, dim, gdim, ss, ee);
     const RangeMatch rms[] = {RangeMatch::Inclusive, RangeMatch::Exclusive};
     for (RangeMatch rm : rms) {
         const char *rn = rm == RangeMatch::Inclusive ? "Inclusive" : "Exclusive";
